@@ -726,6 +726,7 @@ pub fn texts(rng: &mut Rng, thorough: bool, out: &mut Vec<Input>) {
 		f
 	};
 	for (k, s) in &fixtures { out.push(txt(*k, "text-valid", format!("valid {} fixture ({} bytes)", KIND_NAMES[*k as usize], s.len()), s.as_bytes().to_vec())); }
+	super::hostile::text_cells(&fixtures[..4], out);
 	for i in 0..n {
 		let (k, s) = &fixtures[i % fixtures.len()];
 		// a mutated fixture goes to its own parser and to one other parser
@@ -1054,4 +1055,103 @@ pub fn assembled_bases() -> Vec<(String, Vec<u8>)> {
 	v.push(("assembled: annotation with nested arrays".to_string(), deep_annotation_class("RuntimeVisibleAnnotations", 5, false)));
 	v.push(("assembled: annotation with nested annotations".to_string(), deep_annotation_class("RuntimeInvisibleAnnotations", 5, true)));
 	v
+}
+
+// ------------------------------------------------------------------ counts with all their data present
+/// every count field of the format at 255 / 256 / 257 / 65535 WITH the counted items present (tiny ones):
+/// attributes at every level (class, field, method, Code, record component), members, interfaces, table
+/// entries of every table-like attribute, annotations, element value pairs, array values, bootstrap
+/// methods and their arguments — where a narrower counter (u8) or a quadratic walk would show
+pub fn exact_counts(out: &mut Vec<Input>) {
+	for n in [255usize, 256, 257, 65535] {
+		let s = "class-exact-counts";
+		let many = |item: &[u8]| -> Vec<u8> { let mut b = vec![]; u16be(&mut b, n as u16); for _ in 0..n { b.extend_from_slice(item); } b };
+		// attributes at every level: 0 class, 1 field, 2 method, 3 Code, 4 record component
+		for level in 0..5usize {
+			let mut p = Pool::new();
+			let this = p.class("T"); let sup = p.class("java/lang/Object");
+			let (mn, md, c) = (p.utf8("m"), p.utf8("()V"), p.utf8("Code"));
+			let (fname, fdesc) = (p.utf8("f"), p.utf8("I"));
+			let foo = p.utf8("Foo"); let rec = p.utf8("Record");
+			let a = attr(foo, &[]);
+			let list: Vec<Vec<u8>> = vec![a; n];
+			let code_sub = if level == 3 { list.clone() } else { vec![] };
+			let mut mat = vec![attr(c, &code_body(1, 1, &nops(0), &[], &code_sub))];
+			if level == 2 { mat.extend(list.iter().cloned()); }
+			let m = member(0x0009, mn, md, &mat);
+			let f = member(0x0002, fname, fdesc, &if level == 1 { list.clone() } else { vec![] });
+			let mut cat: Vec<Vec<u8>> = if level == 0 { list.clone() } else { vec![] };
+			if level == 4 { let mut b = vec![]; u16be(&mut b, 1); u16be(&mut b, fname); u16be(&mut b, fdesc); b.extend_from_slice(&attrs(&list)); cat.push(attr(rec, &b)); }
+			out.push(cls(s, "exact-count", format!("{n} attributes (all present, empty) on the {}", ["class", "field", "method", "Code attribute", "record component"][level]), class_file(61, &p, 0x0031, this, sup, &[], &[f], &[m], &cat)));
+		}
+		// members and interfaces
+		{
+			let mut p = Pool::new();
+			let this = p.class("T"); let sup = p.class("java/lang/Object"); let itf = p.class("I");
+			let (mn, md) = (p.utf8("m"), p.utf8("()V")); let (fname, fdesc) = (p.utf8("f"), p.utf8("I"));
+			let f = member(0x0002, fname, fdesc, &[]); let m = member(0x0401, mn, md, &[]);
+			out.push(cls(s, "exact-count", format!("{n} fields"), class_file(61, &p, 0x0421, this, sup, &[], &vec![f.clone(); n], &[], &[])));
+			out.push(cls(s, "exact-count", format!("{n} methods"), class_file(61, &p, 0x0421, this, sup, &[], &[], &vec![m.clone(); n], &[])));
+			out.push(cls(s, "exact-count", format!("{n} interfaces"), class_file(61, &p, 0x0421, this, sup, &vec![itf; n], &[], &[], &[])));
+		}
+		// class-level tables
+		{
+			let mk = |an: &str, f: &dyn Fn(&mut Pool) -> Vec<u8>| -> Vec<u8> {
+				let mut p = Pool::new();
+				let this = p.class("T"); let sup = p.class("java/lang/Object");
+				let name = p.utf8(an);
+				let body = f(&mut p);
+				class_file(61, &p, 0x0021, this, sup, &[], &[], &[], &[attr(name, &body)])
+			};
+			out.push(cls(s, "exact-count", format!("InnerClasses with {n} entries"), mk("InnerClasses", &|p| { let c = p.class("T$I"); let o = p.class("T"); let i = p.utf8("I"); let mut e = vec![]; u16be(&mut e, c); u16be(&mut e, o); u16be(&mut e, i); u16be(&mut e, 8); many(&e) })));
+			out.push(cls(s, "exact-count", format!("NestMembers with {n} entries"), mk("NestMembers", &|p| { let c = p.class("T$I"); many(&c.to_be_bytes()) })));
+			out.push(cls(s, "exact-count", format!("PermittedSubclasses with {n} entries"), mk("PermittedSubclasses", &|p| { let c = p.class("T$I"); many(&c.to_be_bytes()) })));
+			out.push(cls(s, "exact-count", format!("Record with {n} components"), mk("Record", &|p| { let (a, b) = (p.utf8("x"), p.utf8("I")); let mut e = vec![]; u16be(&mut e, a); u16be(&mut e, b); u16be(&mut e, 0); many(&e) })));
+			out.push(cls(s, "exact-count", format!("BootstrapMethods with {n} methods without arguments"), mk("BootstrapMethods", &|p| { let r = p.methodref("B", "bsm", "()V"); let h = p.handle(6, r); let mut e = vec![]; u16be(&mut e, h); u16be(&mut e, 0); many(&e) })));
+			out.push(cls(s, "exact-count", format!("BootstrapMethods with one method of {n} arguments"), mk("BootstrapMethods", &|p| { let r = p.methodref("B", "bsm", "()V"); let h = p.handle(6, r); let k = p.int(7); let mut b = vec![]; u16be(&mut b, 1); u16be(&mut b, h); b.extend_from_slice(&many(&k.to_be_bytes())); b })));
+			out.push(cls(s, "exact-count", format!("RuntimeVisibleAnnotations with {n} annotations"), mk("RuntimeVisibleAnnotations", &|p| { let ty = p.utf8("LA;"); let mut e = vec![]; u16be(&mut e, ty); u16be(&mut e, 0); many(&e) })));
+			out.push(cls(s, "exact-count", format!("one annotation with {n} element value pairs"), mk("RuntimeInvisibleAnnotations", &|p| { let ty = p.utf8("LA;"); let (el, k) = (p.utf8("v"), p.int(1)); let mut e = vec![]; u16be(&mut e, el); e.push(b'I'); u16be(&mut e, k); let mut b = vec![]; u16be(&mut b, 1); u16be(&mut b, ty); b.extend_from_slice(&many(&e)); b })));
+			out.push(cls(s, "exact-count", format!("one annotation whose element is an array of {n} values"), mk("RuntimeVisibleAnnotations", &|p| { let ty = p.utf8("LA;"); let (el, k) = (p.utf8("v"), p.int(1)); let mut e = vec![b'I']; u16be(&mut e, k); let mut b = vec![]; u16be(&mut b, 1); u16be(&mut b, ty); u16be(&mut b, 1); u16be(&mut b, el); b.push(b'['); b.extend_from_slice(&many(&e)); b })));
+			out.push(cls(s, "exact-count", format!("RuntimeVisibleTypeAnnotations with {n} annotations"), mk("RuntimeVisibleTypeAnnotations", &|p| { let ty = p.utf8("LA;"); let mut e = vec![0x00, 0, 0]; u16be(&mut e, ty); u16be(&mut e, 0); many(&e) })));
+			out.push(cls(s, "exact-count", format!("ModulePackages with {n} packages"), mk("ModulePackages", &|p| { let u = p.utf8("a/b"); let k = p.idx1(20, u); many(&k.to_be_bytes()) })));
+			out.push(cls(s, "exact-count", format!("Module with {n} requires, exports, opens, uses and provides"), mk("Module", &|p| {
+				let mu = p.utf8("m"); let mo = p.idx1(19, mu); let pu = p.utf8("a/b"); let pk = p.idx1(20, pu); let c = p.class("a/b/C");
+				let mut b = vec![]; u16be(&mut b, mo); u16be(&mut b, 0); u16be(&mut b, 0);
+				let mut req = vec![]; u16be(&mut req, mo); u16be(&mut req, 0); u16be(&mut req, 0); b.extend_from_slice(&many(&req));
+				let mut exp = vec![]; u16be(&mut exp, pk); u16be(&mut exp, 0); u16be(&mut exp, 0); b.extend_from_slice(&many(&exp));
+				b.extend_from_slice(&many(&exp));
+				b.extend_from_slice(&many(&c.to_be_bytes()));
+				let mut prov = vec![]; u16be(&mut prov, c); u16be(&mut prov, 1); u16be(&mut prov, c); b.extend_from_slice(&many(&prov));
+				b
+			})));
+			if n <= 257 { out.push(cls(s, "exact-count", format!("a type annotation whose type path has {} entries", n.min(255)), mk("RuntimeVisibleTypeAnnotations", &|p| { let ty = p.utf8("LA;"); let mut b = vec![]; u16be(&mut b, 1); b.extend_from_slice(&[0x00, 0]); b.push(n.min(255) as u8); for _ in 0..n.min(255) { b.extend_from_slice(&[0, 0]); } u16be(&mut b, ty); u16be(&mut b, 0); b }))); }
+		}
+		// method-level and Code-level tables
+		{
+			let mk_m = |an: &str, f: &dyn Fn(&mut Pool) -> Vec<u8>| -> Vec<u8> {
+				let mut p = Pool::new();
+				let this = p.class("T"); let sup = p.class("java/lang/Object");
+				let (mn, md) = (p.utf8("m"), p.utf8("()V"));
+				let name = p.utf8(an);
+				let body = f(&mut p);
+				let m = member(0x0401, mn, md, &[attr(name, &body)]);
+				class_file(61, &p, 0x0421, this, sup, &[], &[], &[m], &[])
+			};
+			out.push(cls(s, "exact-count", format!("Exceptions with {n} classes"), mk_m("Exceptions", &|p| { let c = p.class("E"); many(&c.to_be_bytes()) })));
+			if n == 255 { out.push(cls(s, "exact-count", "MethodParameters with 255 parameters".into(), mk_m("MethodParameters", &|p| { let u = p.utf8("x"); let mut b = vec![255u8]; for _ in 0..255 { u16be(&mut b, u); u16be(&mut b, 0); } b }))); }
+			let code_len = if n == 65535 { 65535 } else { n + 8 };
+			let mk_c = |exc: usize, an: &str, f: &dyn Fn(&mut Pool) -> Vec<u8>| -> Vec<u8> {
+				one_method_class(|p| { let name = p.utf8(an); let body = f(p); (nops(code_len - 1), vec![(0, 1, 0, 0); exc], vec![attr(name, &body)]) }, no_attrs)
+			};
+			out.push(cls(s, "exact-count", format!("exception table with {n} entries"), mk_c(n, "Foo", &|_| vec![])));
+			out.push(cls(s, "exact-count", format!("LineNumberTable with {n} entries on one offset"), mk_c(0, "LineNumberTable", &|_| many(&[0, 0, 0, 1]))));
+			out.push(cls(s, "exact-count", format!("LineNumberTable with {n} entries on {n} offsets"), mk_c(0, "LineNumberTable", &|_| { let mut b = vec![]; u16be(&mut b, n as u16); for i in 0..n { u16be(&mut b, (i % code_len) as u16); u16be(&mut b, 1); } b })));
+			out.push(cls(s, "exact-count", format!("LocalVariableTable with {n} entries"), mk_c(0, "LocalVariableTable", &|p| { let (a, b) = (p.utf8("x"), p.utf8("I")); let mut e = vec![]; u16be(&mut e, 0); u16be(&mut e, 1); u16be(&mut e, a); u16be(&mut e, b); u16be(&mut e, 0); many(&e) })));
+			out.push(cls(s, "exact-count", format!("LocalVariableTypeTable with {n} entries"), mk_c(0, "LocalVariableTypeTable", &|p| { let (a, b) = (p.utf8("x"), p.utf8("TT;")); let mut e = vec![]; u16be(&mut e, 0); u16be(&mut e, 1); u16be(&mut e, a); u16be(&mut e, b); u16be(&mut e, 0); many(&e) })));
+			out.push(cls(s, "exact-count", format!("StackMapTable with {n} same frames on consecutive offsets"), mk_c(0, "StackMapTable", &|_| many(&[0]))));
+			out.push(cls(s, "exact-count", format!("StackMapTable with one full frame of {n} locals and {n} stack items"), mk_c(0, "StackMapTable", &|_| { let mut b = vec![]; u16be(&mut b, 1); b.push(255); u16be(&mut b, 0); b.extend_from_slice(&many(&[1])); b.extend_from_slice(&many(&[1])); b })));
+			out.push(cls(s, "exact-count", format!("StackMap (CLDC) with {n} frames"), mk_c(0, "StackMap", &|_| many(&[0, 0, 0, 0, 0, 0]))));
+			out.push(cls(s, "exact-count", format!("Code type annotation with a local variable target of {n} ranges"), mk_c(0, "RuntimeVisibleTypeAnnotations", &|p| { let ty = p.utf8("LA;"); let mut b = vec![]; u16be(&mut b, 1); b.push(0x40); b.extend_from_slice(&many(&[0, 0, 0, 1, 0, 0])); b.push(0); u16be(&mut b, ty); u16be(&mut b, 0); b })));
+		}
+	}
 }
